@@ -609,6 +609,9 @@ class Path(Expression):
             not RE_PROPERTY.fullmatch(root) or root in _RESERVED_WORDS
         ):
             buf = [f"[{quote_string(root)}]"]
+        elif isinstance(root, Path):
+            # The name of the root variable is itself the value of a variable.
+            buf = [f"[{root}]"]
         else:
             buf = [str(root)]
         for segment in it:
